@@ -24,8 +24,10 @@ pub fn run(ctx: &mut Ctx) {
 /// chunks far beyond every internal buffer (1 MiB refill, 2 MiB file buffer, anything a
 /// "bound the memory" change might pick) moving in a cycle.
 fn huge_chunk_swap(ctx: &mut Ctx) {
-    let a_len = (9 << 20) + gen::draw(8 << 20) as usize;
-    let b_len = (9 << 20) + gen::draw(8 << 20) as usize;
+    // fixed-size chunks of 8.5 .. 12.5 MiB: region A (zeros) and region B (0xff), swapped in the
+    // prior output, so that the in-place update is one two-chunk cycle of huge chunks
+    let n = (17 << 19) + gen::draw(4 << 20) as usize;
+    let (a_len, b_len) = (n, n);
     let mut source = vec![0u8; a_len];
     source.extend(std::iter::repeat(0xffu8).take(b_len));
     let mut prior = vec![0xffu8; b_len];
@@ -33,7 +35,7 @@ fn huge_chunk_swap(ctx: &mut Ctx) {
     scen::put_file("src.bin", &source);
     scen::set_stdin(None);
     scen::set_schedule(100, true);
-    let r = scen::run(&crate::cli::args(&["bita", "compress", "-i", "src.bin", "--compression", "none", "--max-chunk-size", "32MiB", "--buffered-chunks", "2", "a.cba"]));
+    let r = scen::run(&crate::cli::args(&["bita", "compress", "-i", "src.bin", "--compression", "none", "--fixed-size", &n.to_string(), "--buffered-chunks", "2", "a.cba"]));
     if !r.outcome.is_success() {
         ctx.fail(&format!("compress-outcome:{}", r.outcome.class()), format!("compress of two constant regions ended with {}", r.outcome.short()));
         return;
